@@ -9,6 +9,16 @@ CLAIMED = {
     level="AVN identities decided exactly over the reals for every copy of the formula: orthogonality, det=1, agreement with the Euler-Rodrigues matrix, evenness, conjugate->transpose, homomorphism, rotate/q v q*/q_rot. A sign/index/factor slip in any entry of any copy is refuted with a witness. This is the right level because the property is a finite set of polynomial identities in the code's own formulas.",
     note="Real arithmetic (no rounding); unit quaternions modelled as normalised free 4-vectors; trusted base: CPython ast, sa/poly.py, sa/symeval.py transfer functions.",
     ref="DESIGN.md §2 C01"),
+ "C09": dict(
+    technique="algebraic value numbering of the extracted product/conjugate/inverse/mult_L/mult_R and the scalar-last accessors, with degenerate-arm exploration of special-value branches",
+    level="The Hamilton laws (associativity, norm multiplicativity, anti-homomorphism, L/R matrices, operator agreement, inverse on both arms, scalar-last storage) are polynomial identities in the code's own formulas and are decided exactly over the reals for free (non-normalised) quaternions; special-value fast paths are explored arm by arm.",
+    note="Real arithmetic; one known finding (Quaternion.inverse divides by the norm; the suite pins it) is listed in known_findings.json.",
+    ref="DESIGN.md §2 C09"),
+ "C19": dict(
+    technique="flow-sensitive may-alias/ownership dataflow with bottom-up callee summaries over all public callables (NO-PARAM-WRITE, NO-CTOR-ARG-WRITE, SELF-PURE, SHARED-STATE, REPEATABLE)",
+    level="Effect analysis over every public callable (256 today): no in-place write may reach an object aliasing a caller-owned array (parameters, **kwargs values, constructor arguments kept in self attributes), value classes only mutate their storage through the explicit in-place API, no caches/mutable defaults/unintended RNG. The property quantifies over all callables and arguments, which is exactly what an effect analysis covers and sampling cannot.",
+    note="May-analysis over the ast; rows obtained by integer indexing/unpacking are treated as immutable elements (documented rank-1 inputs); NumPy fresh/view/in-place behaviour from the table in sa/flow.py.",
+    ref="DESIGN.md §2 C19"),
 }
 
 NOT_YET = "check not built yet in this session (work in progress; see DESIGN.md §2 for the planned static rules)"
